@@ -336,7 +336,16 @@ func targetedSchemaMutation(r *Rng, root map[string]interface{}) string {
 				cands = dk
 			}
 			if d, ok := descs[cands[r.Intn(len(cands))]].(map[string]interface{}); ok {
-				d["constraints"] = map[string]interface{}{"index": true, "unique": r.Bool()}
+				// any combination a file can hold, the ones the library never writes included
+				// (unique without index)
+				c := map[string]interface{}{"index": true, "unique": r.Bool()}
+				if r.P(0.4) {
+					c = map[string]interface{}{"unique": true}
+					if r.Bool() {
+						c["index"] = pick(r, []interface{}{false, nil})
+					}
+				}
+				d["constraints"] = c
 				return "constraint-on-any-descriptor"
 			}
 		}
